@@ -247,7 +247,7 @@ impl Check for C15 {
                 let a = stream(&sh[*a_shape], &[1.0]);
                 for (bi, bs) in sh.iter().enumerate() {
                     for cs in sh.iter().skip(bi) {
-                        for (bv, cv) in [(1.0f32, 1.0f32), (-1.0, 2.5), (2.5, -1.0)] {
+                        for (bv, cv) in [(1.0f32, 1.0f32), (-1.0, 2.5), (2.5, -1.0), (1e-20, 2e-20)] {
                             c15_judge(&[a.clone(), stream(bs, &[bv]), stream(cs, &[cv])], out);
                         }
                     }
@@ -256,7 +256,9 @@ impl Check for C15 {
             C15Case::MergeSingles { pts } => {
                 let sh = shapes(pts, 3);
                 for s in &sh {
-                    for vals in [[1.0f32, 1.0, 1.0], [1.0, 0.0, -1.0], [0.0, 2.5, 0.0]] {
+                    // ... and magnitudes far below f64::EPSILON (distinct values, none of them zero),
+                    // huge next to tiny, zeros of both signs
+                    for vals in [[1.0f32, 1.0, 1.0], [1.0, 0.0, -1.0], [0.0, 2.5, 0.0], [1e-20, 3e-20, 1e-30], [1e30, 1e-30, -1e-20], [0.0, -0.0, 1e-38]] {
                         let a = stream(s, &vals);
                         c15_judge(&[a.clone()], out);
                         c15_judge(&[a.clone(), a.clone()], out);
@@ -618,6 +620,16 @@ impl Check for C17 {
                         match stats_for_bed_item(&ch.name, entry, &mut rd) {
                             Err(err) => out.fail("region_stats_error", &tags, format!("{} [{},{}): {}", ch.name, s, e, err)),
                             Ok(g) => cmp_entry(&format!("stats_for_bed_item {} [{},{})", ch.name, s, e), &g, &ref_stats(ch, s, e), &tags, out),
+                        }
+                        // a row whose further columns form a valid BED12 block list: the statistics are
+                        // still those of [start, end)
+                        if e - s >= 8 && e <= ch.len {
+                            out.count("regions_with_bed12_columns", 1);
+                            let entry = BedEntry { start: s, end: e, rest: format!("g{}\t0\t+\t{}\t{}\t0\t2\t1,2,\t0,{},", s, s, e, e - s - 2) };
+                            match stats_for_bed_item(&ch.name, entry, &mut rd) {
+                                Err(err) => out.fail("region_stats_error", &tags, format!("{} [{},{}) with BED12 columns: {}", ch.name, s, e, err)),
+                                Ok(g) => cmp_entry(&format!("stats_for_bed_item {} [{},{}) with BED12 columns", ch.name, s, e), &g, &ref_stats(ch, s, e), &tags, out),
+                            }
                         }
                         // names: plain, with blanks inside, empty (columns are separated by TAB only)
                         let nm = match (s + e) % 5 {
